@@ -15,6 +15,7 @@ from .core import Unsupported
 from .e1_srcmodel import dotted
 from .e2_eval import is_unknown
 from . import c11_consume as C
+from . import c11_conc as K
 
 OP4 = "pyyeti/nastran/op4.py"
 OP2 = "pyyeti/nastran/op2.py"
@@ -51,6 +52,27 @@ def _is_setter(name, f):
     return stores and not loops
 
 
+def _width_names(fn):
+    """the locals that hold the width of a key in bytes: compared with 4 / 8 (`x == 4`, `x in (4, 8)`, `x == [4, 8]`) or used as the key of a
+    literal table whose keys are 4 and 8"""
+    def is_width(n):
+        if isinstance(n, ast.Constant):
+            return n.value in (4, 8) and not isinstance(n.value, bool)
+        if isinstance(n, (ast.Tuple, ast.List, ast.Set)):
+            return bool(n.elts) and all(is_width(e) for e in n.elts)
+        return False
+    out = set()
+    for n in ast.walk(fn):
+        if isinstance(n, ast.Compare) and len(n.ops) == 1 and isinstance(n.ops[0], (ast.Eq, ast.NotEq, ast.In, ast.NotIn)):
+            for a, b in ((n.left, n.comparators[0]), (n.comparators[0], n.left)):
+                if isinstance(a, ast.Name) and is_width(b):
+                    out.add(a.id)
+        if isinstance(n, ast.Subscript) and isinstance(n.value, ast.Dict) and isinstance(n.slice, ast.Name) and n.value.keys \
+                and all(k is not None and is_width(k) for k in n.value.keys):
+            out.add(n.slice.id)
+    return out
+
+
 def tables(ctx):
     tb = getattr(ctx, "_c11_tables", None)
     if tb is not None:
@@ -59,8 +81,20 @@ def tables(ctx):
     for what, rel, cls, q in (("op2", OP2, "OP2", "OP2._op2open"), ("op4", OP4, "OP4", "OP4._op4open_read")):
         fn = ctx.src.func(rel, q)
         for bits in (32, 64):
-            w = C.Walker(ctx, rel, cls, fn, cond=_width_cond(bits, what), follow=_is_setter, files=(), pinned={"self._endian": F.sym("self._endian")})
-            w.run_function()
+            pinned = {"self._endian": F.sym("self._endian")}
+            if what == "op2":
+                # the key width is a value: whatever is tested against 4 / 8 holds it (the tests then decide themselves)
+                for nm in _width_names(fn):
+                    pinned[nm] = F.const(bits // 8)
+            w = C.Walker(ctx, rel, cls, fn, cond=_width_cond(bits, what), follow=_is_setter, files=(), pinned=pinned)
+            try:
+                w.run_function()
+            except Unsupported:
+                raise
+            except C.Stuck as e:
+                raise Unsupported(f"{q}: {e}")
+            except Exception as e:  # noqa  (never a crash: the set-up function cannot be lowered)
+                raise Unsupported(f"{q}: the evaluator failed on the set-up of the format attributes ({type(e).__name__}: {e})")
             tb[what][bits] = {k: v for k, v in w.ev.env.items() if k.startswith("self.")}
     tb["fn"] = {"op2": ctx.src.func(OP2, "OP2._op2open"), "op4": ctx.src.func(OP4, "OP4._op4open_read")}
     ctx._c11_tables = tb
@@ -69,71 +103,117 @@ def tables(ctx):
 
 def strval(v, tb, depth=0):
     """the text a formula denotes under an attribute table; None when it is not (known to be) text"""
-    if v is None or is_unknown(v) or isinstance(v, tuple) or depth > 12:
-        return None
+    x = pyval(v, tb, depth)
+    return x if isinstance(x, str) else None
+
+
+_NOT = K.NOT
+
+
+def pyval(v, tb, depth=0):
+    """the Python value (text, integer, sequence of those) a formula denotes under an attribute table: attributes are looked up, texts are
+    concatenated / formatted / repeated / transformed by the str methods, struct and dtype wrappers stand for their format; K.NOT when the
+    value is not known"""
+    if isinstance(v, tuple):
+        xs = [pyval(x, tb, depth + 1) for x in v]
+        return _NOT if any(x is _NOT for x in xs) else tuple(xs)
+    if v is None or is_unknown(v) or depth > 16 or not hasattr(v, "is_const"):
+        return _NOT
+    if v.is_const():
+        c = v.const_value()
+        return int(c) if c.denominator == 1 else _NOT
     n = C.sym_name(v)
     if n is not None:
         if n == "self._endian":
             return ENDIAN
-        if n[:1] in "'\"":
-            try:
-                return ast.literal_eval(n)
-            except Exception:  # noqa
-                return None
+        x = K.conc(v)
+        if x is not _NOT:
+            return x
         if n in tb:
-            return strval(tb[n], tb, depth + 1)
-        return None
+            return pyval(tb[n], tb, depth + 1)
+        return _NOT
     p = C.fn_parts(v)
     if p is None:
         if not v.d.is_const():
-            return None
+            return _NOT
         terms = [(m, c / v.d.const_value()) for m, c in v.n.t.items()]
-        parts = []
+        const, atoms = 0, []
         for m, c in terms:
-            # c * text: repetition
-            if len(m) != 1 or m[0][1] != 1 or c.denominator != 1 or c <= 0:
-                return None
+            if m == ():
+                const += c
+                continue
+            if len(m) != 1 or m[0][1] != 1 or c.denominator != 1:
+                return _NOT
             at = F.Rat(F.Poly.atom(m[0][0]))
-            s = strval(at, tb, depth + 1)
-            if s is None:
-                return None
-            parts.append((C.sym_name(at) == "self._endian", s * int(c)))
-        if len(parts) == 1:
-            return parts[0][1]
-        # byte order + text written as a (commutative) sum: the byte order character comes first
-        if len(parts) == 2 and sum(1 for e, _s in parts if e) == 1:
-            return "".join(s for e, s in sorted(parts, key=lambda x: not x[0]))
-        return None
+            x = pyval(at, tb, depth + 1)
+            if x is _NOT:
+                return _NOT
+            atoms.append((C.sym_name(at) == "self._endian", x, int(c)))
+        if atoms and const == 0 and all(isinstance(x, str) for _e, x, _c in atoms):
+            # c * text: repetition; byte order + text written as a (commutative) sum: the byte order character comes first
+            if any(c <= 0 for _e, _x, c in atoms):
+                return _NOT
+            if len(atoms) == 1:
+                return atoms[0][1] * atoms[0][2]
+            if len(atoms) == 2 and sum(1 for e, _x, _c in atoms if e) == 1:
+                return "".join(x * c for _e, x, c in sorted(atoms, key=lambda t: not t[0]))
+            return _NOT
+        if all(isinstance(x, int) for _e, x, _c in atoms):
+            tot = const + sum(x * c for _e, x, c in atoms)
+            return int(tot) if getattr(tot, "denominator", 1) == 1 else _NOT
+        return _NOT
     nm, args = p
-    if nm in ("fmt", "mod") and len(args) == 2 and not isinstance(args[1], str) and args[1].is_const() and args[1].const_value().denominator == 1:
-        f_ = strval(args[0], tb, depth + 1)
+    if any(isinstance(a, str) for a in args):
+        return _NOT
+    if nm in ("fmt", "mod") and len(args) == 2:
+        f_, x = pyval(args[0], tb, depth + 1), pyval(args[1], tb, depth + 1)
+        if not isinstance(f_, str) or x is _NOT:
+            return _NOT
         try:
-            return None if f_ is None else f_ % int(args[1].const_value())
+            return f_ % x
         except (TypeError, ValueError):
-            return None
+            return _NOT
+    if nm == "tuple":
+        xs = [pyval(a, tb, depth + 1) for a in args]
+        return _NOT if any(x is _NOT for x in xs) else tuple(xs)
     if nm == "cat":
-        def part(x):
-            # a number interpolated into a text (f"{e}f{nbytes}") prints as its decimal digits
-            n_ = numval(x, tb)
-            if n_ is not None and n_.is_const() and n_.const_value().denominator == 1:
-                return str(int(n_.const_value()))
-            return strval(x, tb, depth + 1)
-        a, b = part(args[0]), part(args[1])
-        return None if a is None or b is None else a + b
-    if nm in ("call:np.dtype", "call:numpy.dtype", "call:struct.Struct", "structof", "call:str") and len(args) >= 1:
-        return strval(args[0], tb, depth + 1)
-    if nm.startswith("call:") and nm.endswith(".replace"):
-        recv = None
-        rest = args
-        if nm == "call:.replace":
-            recv, rest = args[0], args[1:]
-        else:
-            recv = F.sym(nm[5:-len(".replace")])
-        if len(rest) != 2:
-            return None
-        s, a, b = strval(recv, tb, depth + 1), strval(rest[0], tb, depth + 1), strval(rest[1], tb, depth + 1)
-        return None if None in (s, a, b) else s.replace(a, b)
-    return None
+        a, b = pyval(args[0], tb, depth + 1), pyval(args[1], tb, depth + 1)
+        if a is _NOT or b is _NOT or isinstance(a, tuple) or isinstance(b, tuple):
+            return _NOT
+        # a number interpolated into a text (f"{e}f{nbytes}") prints as its decimal digits
+        return (str(a) if not isinstance(a, str) else a) + (str(b) if not isinstance(b, str) else b)
+    if nm in ("call:np.dtype", "call:numpy.dtype", "call:struct.Struct", "structof") and len(args) >= 1:
+        return pyval(args[0], tb, depth + 1)
+    if nm == "call:str" and len(args) == 1:
+        x = pyval(args[0], tb, depth + 1)
+        return _NOT if x is _NOT else str(x)
+    if nm == "idx" and len(args) == 2:
+        base, k = pyval(args[0], tb, depth + 1), pyval(args[1], tb, depth + 1)
+        if base is _NOT or k is _NOT or not isinstance(base, (str, tuple)) or not isinstance(k, int):
+            return _NOT
+        try:
+            return base[k]
+        except IndexError:
+            return _NOT
+    if nm == "phi" and len(args) == 3:
+        c = pyval(args[0], tb, depth + 1)
+        if c is _NOT:
+            return _NOT
+        return pyval(args[1] if c else args[2], tb, depth + 1)
+    if nm.startswith("call:") and "." in nm:
+        meth = nm.rsplit(".", 1)[1]
+        if meth in K.STR_METHODS:
+            recv, rest = (args[0], args[1:]) if nm == "call:." + meth else (F.sym(nm[5:-len(meth) - 1]), args)
+            r = pyval(recv, tb, depth + 1)
+            xs = [pyval(a, tb, depth + 1) for a in rest]
+            if not isinstance(r, str) or any(x is _NOT for x in xs):
+                return _NOT
+            try:
+                out = getattr(r, meth)(*xs)
+            except Exception:  # noqa
+                return _NOT
+            return out if isinstance(out, (str, int, tuple)) else _NOT
+    return _NOT
 
 
 def numval(v, tb):
@@ -146,9 +226,17 @@ def numval(v, tb):
             if tb[d[1]].is_const():
                 mp[d[1]] = tb[d[1]]
     try:
-        return v.subs(mp) if mp else v
+        out = v.subs(mp) if mp else v
     except Unsupported:
         return None
+    if any(d[0] == "fn" and d[1] in ("attr:size", "call:struct.calcsize") for d in C.walk_atoms(out)):
+        # the size of a struct whose format is known (Struct(...).size, struct.calcsize(...))
+        def post(name, args):
+            if name in ("attr:size", "call:struct.calcsize") and len(args) == 1 and not isinstance(args[0], str):
+                return struct_size(strval(args[0], tb))
+            return None
+        out = C.rewrite(out, post=post)
+    return out
 
 
 def struct_items(text):
@@ -212,7 +300,7 @@ def _show(v):
             (m1, c1), (m2, c2) = terms
             if c1 == -c2 and len(m1) == 1 and len(m2) == 1:
                 x, y = F.Rat(F.Poly.atom(m1[0][0])), F.Rat(F.Poly.atom(m2[0][0]))
-                if (C.sym_name(x) or "")[:1] in "'\"":
+                if C.sym_name(x) and C.sym_name(x)[:1] in "'\"":
                     x, y = y, x
                 return f"{_show(x)} == {_show(y)}"
         return f"{_show(d)} == 0"
